@@ -307,11 +307,6 @@ fn do_step_x<const NS: usize, const PARENT: bool>(t: &mut FinalityTracker, g: &G
 
     vcover!(newly_direct, "a slot becomes directly finalized");
     vcover!(!newly_direct && d2.direct[s] && d.direct[s], "a certificate arrives for a slot that is already finalized");
-    if PARENT {
-        vcover!(want_if > 0, "an ancestor becomes implicitly finalized");
-        vcover!(want_sk > 0, "a slot becomes implicitly skipped");
-        vcover!(d2.w > d.w, "the watermark advances");
-    }
     std::mem::forget(ev);
     g2
 }
